@@ -48,8 +48,8 @@ CHECKS = {
  'C09': dict(
    category='model_checking', design_ref='DESIGN.md 5 C09',
    technique='bounded symbolic execution (CrossHair/z3) of checker.matches_golden / check / execute with all options, golden records and run outcomes symbolic, against the documented rule; exhaustive per partition',
-   text='All combinations of the nine comparison options, match strings, exit codes (unbounded ints) and streams (strings up to the bound) are solver-quantified; check() wiring is verified for main and cross-check command, execute() argv and the candidate file extension with fakes for Popen/resource/tempfile. Every partition must come back exhausted.',
-   note='Trusted: CrossHair/z3 string and int models; spec_checker.py (12-line restatement of docs/quickstart.rst). Stubs: checker.execute (wiring), subprocess/resource/tempfile fakes (invoke). Outside: strings longer than the bound, a real subprocess.'),
+   text='All combinations of the nine comparison options, match strings, exit codes (unbounded ints) and streams (strings up to the bound) are solver-quantified; check() wiring is verified for main and cross-check command, execute() argv and the candidate file extension with fakes for Popen/resource/tempfile. Every partition must come back exhausted. In addition (partition e2rule) the current source of matches_golden is translated into a z3 formula over strings of any length, optional streams and optional exit codes (vlib/py2smt.py) and proved equivalent to the documented rule, together with the obligation that it never raises.',
+   note='Trusted: CrossHair/z3 string and int models; the 170-line AST-to-z3 translator for the if/return/not/and/or/==/in subset (it refuses anything else); spec_checker.py (12-line restatement of docs/quickstart.rst). Stubs: checker.execute (wiring), subprocess/resource/tempfile fakes (invoke). Outside: strings longer than the bound, a real subprocess.'),
  'C10': dict(
    category='model_checking', design_ref='DESIGN.md 5 C10',
    technique='bounded symbolic execution (CrossHair/z3) of checker.execute / check / do_golden_runs / limit_resources with a nondeterministic fake Popen (time-out or finish, any return code), symbolic real-valued run times and limits, symbolic streams and options',
